@@ -244,3 +244,157 @@ void h_sts_drain_aux(void)
   sts_drain_aux(&s, &k, &b);
   VERIF_CANARY();
 }
+
+/* ---- src/endpoints/buffer.c ---- */
+#ifdef EP_UNIT_BUFFER
+#ifndef EP_CHUNKS_MAX
+#define EP_CHUNKS_MAX 4
+#endif
+#define EP_BB_STATE(b, in_size, in_used, in_offset, in_data) \
+  IN(size_t, in_size) IN(size_t, in_used) IN(size_t, in_offset) \
+  EP_FOLD(in_size, 1, EP_NMAX) EP_FOLD(in_used, 0, in_size) EP_FOLD(in_offset, 0, in_used) \
+  ASSUME(in_size >= 1 && in_size <= EP_NMAX && in_offset <= in_used && in_used <= in_size); \
+  IN_MEM(in_data, in_size) \
+  ByteBuffer b = { in_data, in_size, in_used, in_offset };
+
+void h_read_from_buffer(void)
+{
+  GHOST_HAVOC();
+  EP_BB_STATE(b, in_size, in_used, in_offset, in_data)
+  IN(size_t, in_n)
+  size_t rest = in_used - in_offset;
+  size_t dstlen = rest == 0 ? 1 : (in_n < rest ? in_n : rest);
+  IN_MEM(in_dst, dstlen)
+  read_from_buffer(&b, in_dst, in_n);
+  VERIF_CANARY();
+}
+
+void h_write_to_buffer(void)
+{
+  GHOST_HAVOC();
+  EP_BB_STATE(b, in_size, in_used, in_offset, in_data)
+  IN(size_t, in_n)
+  size_t srclen = in_n <= in_size - in_used ? in_n : 1;
+  IN_MEM(in_src, srclen)
+  write_to_buffer(&b, in_src, in_n);
+  VERIF_CANARY();
+}
+
+/* up to EP_CHUNKS_MAX chunks, every one in an arbitrary well-formed state */
+#define EP_CHUNK(i) \
+  IN(size_t, in_size##i) IN(size_t, in_used##i) IN(size_t, in_offset##i) \
+  EP_FOLD(in_size##i, 1, EP_NMAX) EP_FOLD(in_used##i, 0, in_size##i) EP_FOLD(in_offset##i, 0, in_used##i) \
+  ASSUME(in_size##i >= 1 && in_size##i <= EP_NMAX && in_offset##i <= in_used##i && in_used##i <= in_size##i); \
+  IN_MEM(in_data##i, in_size##i) \
+  if (i < in_chunks) { chunk[i].data = in_data##i; chunk[i].size = in_size##i; chunk[i].used = in_used##i; chunk[i].offset = in_offset##i; }
+
+void h_read_from_chunks(void)
+{
+  GHOST_HAVOC();
+  IN(size_t, in_chunks) IN(size_t, in_active)
+  EP_FOLD(in_chunks, 1, EP_CHUNKS_MAX) EP_FOLD(in_active, 0, in_chunks)
+  ASSUME(in_chunks >= 1 && in_chunks <= EP_CHUNKS_MAX && in_active <= in_chunks);
+  ByteBuffer *chunk = malloc(in_chunks * sizeof(ByteBuffer));
+  ASSUME(chunk != NULL);
+  EP_CHUNK(0) EP_CHUNK(1) EP_CHUNK(2) EP_CHUNK(3)
+  ByteChunks c = { in_chunks, in_active, chunk };
+  IN(size_t, in_n) EP_FOLD(in_n, 1, EP_NMAX)
+  ASSUME(in_n >= 1 && in_n <= EP_NMAX);
+  IN_MEM(in_dst, in_n)
+  read_from_chunks(&c, in_dst, in_n);
+  VERIF_CANARY();
+}
+
+void h_source_from_buffer(void)
+{
+  IN_MEM(in_bb, sizeof(ByteBuffer))
+  Source s;
+  source_from_buffer(&s, (ByteBuffer *)in_bb);
+  VERIF_CANARY();
+}
+
+void h_source_from_chunks(void)
+{
+  IN_MEM(in_bc, sizeof(ByteChunks))
+  Source s;
+  source_from_chunks(&s, (ByteChunks *)in_bc);
+  VERIF_CANARY();
+}
+
+void h_sink_to_buffer(void)
+{
+  IN_MEM(in_bb, sizeof(ByteBuffer))
+  Sink k;
+  sink_to_buffer(&k, (ByteBuffer *)in_bb);
+  VERIF_CANARY();
+}
+#endif /* EP_UNIT_BUFFER */
+
+/* ---- src/endpoints/trivial.c ---- */
+#ifdef EP_UNIT_TRIVIAL
+void h_run_source_zero(void)
+{
+  GHOST_HAVOC();
+  IN(size_t, in_n) EP_FOLD(in_n, 0, EP_NMAX) ASSUME(in_n <= EP_NMAX);
+  IN_MEM(in_buf, in_n)
+  run_source_zero((void *)0, in_buf, in_n);
+  VERIF_CANARY();
+}
+
+void h_run_sink_null(void)
+{
+  IN(size_t, in_n) EP_FOLD(in_n, 0, EP_NMAX) ASSUME(in_n <= EP_NMAX);
+  IN_MEM(in_buf, in_n)
+  run_sink_null((void *)0, in_buf, in_n);
+  VERIF_CANARY();
+}
+
+void h_run_source_empty(void)
+{
+  IN(size_t, in_n)
+  IN_MEM(in_buf, 1)
+  run_source_empty((void *)0, in_buf, in_n);
+  VERIF_CANARY();
+}
+
+/* base target of the static-state invariant: plain harness, the objects have
+ * the values of their initialisers */
+void h_trivial_static_ok(void)
+{
+  CHECK(EP_STATIC_OK(), "source_empty, source_zero and sink_null are initialised as chunk endpoints of their drivers");
+  VERIF_CANARY();
+}
+#endif /* EP_UNIT_TRIVIAL */
+
+/* ---- constructors ---- */
+void h_octet_source_init(void)
+{
+  IN_MEM(in_cookie, 1)
+  Source s;
+  octet_source_init(&s, ep_octet_source, in_cookie);
+  VERIF_CANARY();
+}
+
+void h_chunk_source_init(void)
+{
+  IN_MEM(in_cookie, 1)
+  Source s;
+  chunk_source_init(&s, ep_chunk_source, in_cookie);
+  VERIF_CANARY();
+}
+
+void h_octet_sink_init(void)
+{
+  IN_MEM(in_cookie, 1)
+  Sink k;
+  octet_sink_init(&k, ep_octet_sink, in_cookie);
+  VERIF_CANARY();
+}
+
+void h_chunk_sink_init(void)
+{
+  IN_MEM(in_cookie, 1)
+  Sink k;
+  chunk_sink_init(&k, ep_chunk_sink, in_cookie);
+  VERIF_CANARY();
+}
